@@ -4,7 +4,9 @@ import random
 
 TEXTS = ['', 'x', 'a b', 'n:1', 's:x', 'm:', 'x:y', 'a,b', 'a\nb', 'a\r\nb', '"', '\\', '\\"', '$', '`', '\t', 'café', ' ', '\U0001F600',
          '>>', 'a\n\nb', '[', '{', 'u:x', 'C(1,2)', '1kW', ' lead', 'trail ', '\x1f', '\x00', 'T', 'N', 'NA', 'é́', '￾', ':', 'x:hex:00', 'z:', '-:', 'r:a',
-         'd:2020-01-01', 't:x', 'c:1,2', 'b:x', 'h:12:00', 'abc\n', 'a\n', '\nb', 'ab"', 'x\\', 'a$b', 'plain text,\n', 'tab\tend', 'cr\r']
+         'd:2020-01-01', 't:x', 'c:1,2', 'b:x', 'h:12:00', 'abc\n', 'a\n', '\nb', 'ab"', 'x\\', 'a$b', 'plain text,\n', 'tab\tend', 'cr\r',
+         # a backslash in front of text that looks like the tail of an escape, and look-alikes of typed scalars on a later line
+         'caf\\u00e9', 'C:\\temp\\u1234', '\\\\u0041', '\\n', 'x\nn:1', 'a\nd:2020-01-01']
 CONTROL = [chr(c) for c in range(0x20)] + ['\x7f']
 
 
